@@ -43,6 +43,9 @@ type Solver struct {
 	Logic     string
 	Log       io.Writer // optional transcript
 	seq       int
+	lines     chan string
+	Dead      bool // killed after a hard timeout or died; Restart before reuse
+	HardKills int
 }
 
 // New starts the solver. bin e.g. "z3-new", args e.g. ["-in"].
@@ -74,6 +77,18 @@ func (s *Solver) start() error {
 		return err
 	}
 	s.cmd, s.in, s.out = cmd, in, bufio.NewReaderSize(out, 1<<20)
+	s.lines = make(chan string, 1024)
+	s.Dead = false
+	go func(r *bufio.Reader, ch chan string) {
+		for {
+			line, err := r.ReadString('\n')
+			if err != nil {
+				close(ch)
+				return
+			}
+			ch <- line
+		}
+	}(s.out, s.lines)
 	s.Send("(set-option :global-declarations true)\n")
 	if s.Logic != "" {
 		s.Send("(set-logic " + s.Logic + ")\n")
@@ -100,6 +115,9 @@ func (s *Solver) Close() {
 }
 
 func (s *Solver) Send(text string) {
+	if s.Dead {
+		return
+	}
 	if s.Log != nil {
 		io.WriteString(s.Log, text)
 	}
@@ -112,10 +130,29 @@ func (s *Solver) sync() ([]string, error) {
 	marker := "sync-" + strconv.Itoa(s.seq)
 	s.Send("(echo \"" + marker + "\")\n")
 	var lines []string
+	// z3's soft timeout is not always honoured: enforce a hard wall-clock limit
+	limit := time.Duration(s.TimeoutMS)*time.Millisecond*2 + 10*time.Second
+	if s.TimeoutMS <= 0 {
+		limit = 10 * time.Minute
+	}
+	timer := time.NewTimer(limit)
+	defer timer.Stop()
 	for {
-		line, err := s.out.ReadString('\n')
-		if err != nil {
-			return lines, fmt.Errorf("solver died: %v", err)
+		var line string
+		select {
+		case l, ok := <-s.lines:
+			if !ok {
+				s.Dead = true
+				return lines, fmt.Errorf("solver died")
+			}
+			line = l
+		case <-timer.C:
+			s.Dead = true
+			s.HardKills++
+			if s.cmd != nil {
+				s.cmd.Process.Kill()
+			}
+			return lines, fmt.Errorf("solver did not answer within %v (killed)", limit)
 		}
 		line = strings.TrimRight(line, "\r\n")
 		if line == marker || line == "\""+marker+"\"" {
